@@ -15,7 +15,8 @@ class C14(Prop):
     rule = ("(jdd) joint degree distributions over 1-4 topologies with 2-9 keys, zero components, unequal supports, P(0) possibly "
             "positive, arbitrary topology names, exact rational masses: averages, excess distributions, inversion; "
             "(net) clean clique networks from the real generator and hand-built annotated networks: matrix row sums, key halves, "
-            "network histogram and the network identity; non-trivial = at least 3 keys / 3 edges; distinct = distinct case")
+            "network histogram and the network identity (half of them on a second extraction); (matrix) hand-made matrices per topology, "
+            "full / upper triangle / random subset of the ordered pairs: row sums and key halves; non-trivial = at least 3 keys / 3 edges; distinct = distinct case")
     assumptions = ["the static conversion functions are run on an exact rational number type; float accumulations in "
                    "jdd-from-network and get_ejks are mapped back to the unique rational with the known denominator",
                    "the arbitrary common key picked by the code (first element of a set) is passed to the model; the theorem shows the result "
